@@ -97,7 +97,7 @@ pub fn run(r: &mut Report) {
         r.rule.push_str(" + registry histories: ");
         r.rule.push_str(rule08);
     }
-    let n = if r.thorough() { 4000 } else { 480 } / nshards;
+    let n = if r.thorough() { 6000 } else { 1200 } / nshards;
     let mut rng = Rng::new(r.seed.wrapping_add(shard.wrapping_mul(86028121)) ^ 0xC08);
     for i in 0..n {
         let mut crng = rng.fork();
@@ -237,7 +237,7 @@ pub fn run(r: &mut Report) {
     // ---- second stream: a crates.io-source package can never be argued out of vetting by policy
     // (audit-as-crates-io = false on its name, alone or shared with a path package of the same
     // name at another version), neither unlocked nor --locked
-    let n2 = if r.thorough() { 800 } else { 96 } / nshards;
+    let n2 = if r.thorough() { 1600 } else { 240 } / nshards;
     for i in 0..n2 {
         let mut crng = rng.fork();
         let tp_audited = crng.chance(1, 3);
